@@ -685,24 +685,25 @@ def c04(ctx):
 NTYPES = 34
 
 
-def sg_cfg(mode, shard, nshards, mutevery):
+def sg_cfg(mode, shard, nshards, mutevery, wide=False):
     return """SPECIFICATION Spec
 CONSTANTS
   SMode = "%s"
   Shard = %d
   NShards = %d
   MutEvery = %d
+  Wide = %s
 INVARIANTS ReprRoundTrips FeedRoundTrips AcceptedMutantsAreInhabitants Emit
 CHECK_DEADLOCK FALSE
-""" % (mode, shard, nshards, mutevery)
+""" % (mode, shard, nshards, mutevery, "TRUE" if wide else "FALSE")
 
 
-def schema_cases(ctx, mode, mutevery, label):
+def schema_cases(ctx, mode, mutevery, label, wide=False):
     jobs, files = [], []
     for sh in range(NTYPES):
         f = os.path.join(ctx.scratch, "sg-%s-%d.ndjson" % (label, sh))
         files.append(f)
-        jobs.append(dict(module="SchemaGen", cfg=sg_cfg(mode, sh, NTYPES, mutevery), capture=f, workers=1,
+        jobs.append(dict(module="SchemaGen", cfg=sg_cfg(mode, sh, NTYPES, mutevery, wide), capture=f, workers=1,
                          heap="2g", timeout=3000))
     ctx.tlc_parallel(jobs, max_procs=16)
     allf = os.path.join(ctx.scratch, "sg-%s.ndjson" % label)
@@ -824,7 +825,7 @@ def c19(ctx):
     args = ["bindhist", "-in", f, "-every", "4" if quick else "1"]
     ctx.absorb(ctx.vh_run(args, timeout=3000), args, label="bind/histories")
     # (2) faithfulness: every inhabitant of the library's types
-    fconf = schema_cases(ctx, "conforming", 1, "conf")
+    fconf = schema_cases(ctx, "conforming", 1, "conf", wide=True)
     args = ["bindval", "-in", fconf]
     ctx.absorb(ctx.vh_run(args, timeout=3000), args, label="bind/values")
     return ctx.finish(
